@@ -658,6 +658,92 @@ fn replaced_instances(ctx: &Ctx) -> u64 {
     n
 }
 
+/// (h) admin / code histories of contracts that share an ADDRESS in different Apps (addresses are
+/// deterministic): scripts of contract-info queries, admin hand-overs and migrations after one
+/// instantiation; App 1 runs its script, then App 2 runs its own on the same thread. What App 2 is
+/// told equals what it is told alone on a thread - for every ordered pair of scripts.
+fn admin_history_instances(ctx: &Ctx) -> u64 {
+    fn run_script(ops: &[u8]) -> Vec<String> {
+        set_watch(Watch::default());
+        let mut i = fresh();
+        let code3 = i.app.store_code(Box::new(Puppet { tag: 3 }));
+        set_script(prog(DOp::Inst));
+        let u = Addr::unchecked(&i.u);
+        let c = match i.app.instantiate_contract(1, u.clone(), &NodeMsg { n: 0 }, &[], "l", Some(i.u.clone())) {
+            Ok(a) => a,
+            Err(e) => return vec![format!("instantiate failed {:#}", e)],
+        };
+        i.contracts.push(c.to_string());
+        let mut out = vec![format!("address {}", c)];
+        let (mut admin_is_u, mut code_is_1) = (true, true);
+        for op in ops {
+            match op {
+                1 => out.push(format!("info {:?} data {:?}", i.app.wrap().query_wasm_contract_info(c.clone()).map_err(|e| e.to_string()), i.app.contract_data(&c).map_err(|e| e.to_string()))),
+                2 => {
+                    let (from, to) = if admin_is_u { (i.u.clone(), i.v.clone()) } else { (i.v.clone(), i.u.clone()) };
+                    let r = i.app.execute(Addr::unchecked(from), WasmMsg::UpdateAdmin { contract_addr: c.to_string(), admin: to }.into());
+                    admin_is_u = !admin_is_u;
+                    out.push(format!("update-admin ok={}", r.is_ok()));
+                }
+                _ => {
+                    set_script(prog(DOp::Sudo));
+                    let admin = if admin_is_u { i.u.clone() } else { i.v.clone() };
+                    let r = i.app.migrate_contract(Addr::unchecked(admin), c.clone(), &NodeMsg { n: 0 }, if code_is_1 { code3 } else { 1 });
+                    code_is_1 = !code_is_1;
+                    out.push(format!("migrate ok={}", r.is_ok()));
+                }
+            }
+        }
+        let _ = take_trace();
+        let _ = take_reply_errs();
+        finish_transcript(&i, out)
+    }
+    let mut scripts: Vec<Vec<u8>> = vec![vec![]];
+    let mut layer: Vec<Vec<u8>> = vec![vec![]];
+    for _ in 0..ctx.tier.pick(3, 4) {
+        let mut next = vec![];
+        for sq in &layer {
+            for o in [1u8, 2, 3] {
+                let mut x = sq.clone();
+                x.push(o);
+                next.push(x);
+            }
+        }
+        scripts.extend(next.iter().cloned());
+        layer = next;
+    }
+    let scripts = std::sync::Arc::new(scripts);
+    let solos: Vec<Vec<String>> = scripts.iter().map(|sc| { let sc = sc.clone(); std::thread::spawn(move || run_script(&sc)).join().unwrap() }).collect();
+    let solos = std::sync::Arc::new(solos);
+    let mut n = 0u64;
+    let mut handles = vec![];
+    for a in 0..scripts.len() {
+        let (scripts2, solos2) = (scripts.clone(), solos.clone());
+        handles.push(std::thread::spawn(move || {
+            let (scripts, solos) = (scripts2, solos2);
+            let mut bad = vec![];
+            for b in 0..scripts.len() {
+                let _first = run_script(&scripts[a]);
+                let second = run_script(&scripts[b]);
+                if second != solos[b] {
+                    bad.push((a, b, second));
+                }
+            }
+            bad
+        }));
+        if handles.len() == 16 || a + 1 == scripts.len() {
+            for h in handles.drain(..) {
+                for (a, b, second) in h.join().unwrap() {
+                    let diff: Vec<(String, String)> = second.iter().zip(&solos[b]).filter(|(x, y)| x != y).map(|(x, y)| (x.clone(), y.clone())).take(3).collect();
+                    ctx.violation("c19:instances-interfere:contract-info-histories", json!({"first_app_script (1 info, 2 hand admin over, 3 migrate)": scripts[a], "second_app_script": scripts[b], "second_app (got, alone)": diff}));
+                }
+            }
+        }
+        n += scripts.len() as u64;
+    }
+    n
+}
+
 pub fn run_c19(ctx: &Ctx) -> i32 {
     crate::tree::puppet::RECORD_ENV.store(true, std::sync::atomic::Ordering::Relaxed);
     let out = explore(ctx, true, false);
@@ -702,6 +788,7 @@ pub fn run_c19(ctx: &Ctx) -> i32 {
     let (codec_seqs, _) = codec_instances(ctx, ctx.tier.pick(2, 3));
     let code_id_pairs = code_id_instances(ctx);
     let replaced_pairs = replaced_instances(ctx);
+    let admin_pairs = admin_history_instances(ctx);
     // (d) replay validation of an explicit-state exploration: states reached through snapshot
     // restore must equal the states reached by replaying their histories on one App
     let (regcov, _) = crate::reg::explore_registry(ctx, ctx.tier.pick(3, 4));
@@ -715,7 +802,7 @@ pub fn run_c19(ctx: &Ctx) -> i32 {
         "rule": "(a) every history over the operation alphabet up to the length bound, run on two independently built Apps, transcripts (results, events, data, code ids, addresses, checksums, invocation traces, final raw dump) compared; (b) every ordered pair of shorter histories on two Apps in one thread under every interleaving, each transcript compared with its solo transcript; (0) the same with a second, differently configured App (other bonded denomination, unbonding time, rate, commission, balances): solo transcripts of both configurations, and every pair of short histories under every interleaving and both construction orders; (c') histories with caught failures on one thread, directly and from another thread under extra stack frames, in this process (RUST_BACKTRACE=0) and in a second one with RUST_BACKTRACE=1: all four transcripts equal (the transcript includes every Reply verbatim - gas_used and error texts too - and the error texts of malformed and unanswerable queries); (c) digest of everything recomputed in a second OS process with 3 worker threads, which uses the two configurations in the opposite order; distinct_nontrivial = distinct transcripts",
         "exhaustive": true,
         "histories": out.histories, "history_pairs": out.pairs, "interleaved_runs": out.interleaved_runs,
-        "digest": mine, "digest_second_process": other, "environment_histories": eh.len(), "address_codec_call_sequences_each_on_its_own_thread": codec_seqs, "code_id_pairs_in_two_apps_each_on_its_own_thread": code_id_pairs, "snapshot_pairs_replaced_in_place_and_swapped": replaced_pairs,
+        "digest": mine, "digest_second_process": other, "environment_histories": eh.len(), "address_codec_call_sequences_each_on_its_own_thread": codec_seqs, "code_id_pairs_in_two_apps_each_on_its_own_thread": code_id_pairs, "snapshot_pairs_replaced_in_place_and_swapped": replaced_pairs, "contract_info_script_pairs_in_two_apps": admin_pairs,
         "registry_exploration_replayed": {"states": regcov["states"], "replays": regcov["traces_validated_against_impl"], "mismatches": regcov["replay_mismatches (hidden state; reported by C19)"]},
         "alphabet": ALL.iter().map(|o| format!("{:?}", o)).collect::<Vec<_>>(),
         "caps_hit": [],
